@@ -114,6 +114,18 @@ def applyEv (cfg : Config) (tree : List Blk) (incoming : Blk) (m : MState) (e : 
     let ok := match m.stack.getLast? with | some t => t.id == e.ref.id | none => false
     let m := if ok then m else m.fail "C01" s!"Undo {e.ref.id} is not the most recent not-undone New {(m.stack.getLast?.map (·.id)).getD "-"}"
     let m := if m.finals.any (·.id == e.ref.id) then m.fail "C02" s!"final block {e.ref.id} undone" else m
+    -- the junction named by an Undo is a block the consumer's chain keeps (below the undone block, or the LIB it rests
+    -- on), with that block's own height
+    let m := match e.junction with
+      | some j =>
+        let below := m.stack.dropLast
+        let libKnown := hasMask cfg .irreversible
+        let libRef : Option Ref := match m.finals.getLast? with | some f => some f | none => rootRef cfg
+        let onLib := match libRef with | some l => l.id == j.id && l.num == j.num | none => false
+        if below.any (fun r => r.id == j.id && r.num == j.num) || onLib then m
+        else if !libKnown && !(below.any (fun r => r.id == j.id)) then m      -- the handler does not see finality: cannot tell
+        else m.fail "C04" s!"Undo {e.ref.id} names the junction {j.id}#{j.num}, which is not a block of the consumer's remaining chain with that height"
+      | none => m
     { m with stack := m.stack.dropLast, pending := m.pending.filter (·.id != e.ref.id) }
   | .irreversible =>
     -- chain of finals
